@@ -8,7 +8,7 @@ RULE = ("req_run on well-formed preambles: ids incl. 1/65535, all roles, random 
         "cut by styles none/few/many/every-offset/inside-length-prefix; paddings {0,1,7,8,255,random}; junk records (GetValues id 0, unknown "
         "types, foreign-id records, duplicate and foreign BeginRequest) before and between records; trailing stream bytes; read schedules "
         "greedy / 1-byte / small / random / with 0-byte calls; buffer sizes longest pair + 13 ... (+0..40) and 8192. Targeted stream: one pair "
-        "with lengths around 127/128 cut at EVERY offset x paddings {0,1,7,255}. Non-trivial: some pair crosses a record boundary or junk present "
+        "with lengths around 127/128 cut at EVERY offset x paddings {0,1,7,255}. Directed: ignored records between Params records with content lengths 255..65280 around the multiples of 256 (bodies that look like Params records of the request) and with content + padding > 65535. Non-trivial: some pair crosses a record boundary or junk present "
         "or non-greedy schedule; distinct = distinct (wire, schedule, buffer) triples.")
 ASSUMPTIONS = ["HashMap is modelled as an insertion log with last-value-wins lookup",
                "CompactString::from_utf8_lossy is modelled by a transcription (Cgi/Lossy.v), itself tied by the `lossy` mode",
@@ -104,6 +104,26 @@ def huge_junk_case(rng, P, pad, sched):
     return case("req_run", [rng.choice([70000, 131072])], [5], w, sched), ["preamble", "junk", "huge-junk", "multi-record"]
 
 
+def sized_junk_case(rng):
+    """ignored records (unknown type, stream / Params records of a foreign id, a duplicate BeginRequest with an oversized body) whose
+    content length is a round number - multiples of 256, with and without padding - between two Params records; the body looks
+    like Params records of the request itself: the environment must not depend on it, under any read schedule"""
+    rid = rng.choice([1, 300])
+    pairs = rand_pairs(rng, 3, 30) + [(list(b"HTTP_X"), list(b"2"))]
+    payload = nv_all(pairs)
+    cut = rng.randrange(1, len(payload))
+    P = rng.choice([255, 256, 256, 257, 512, 768, 1024, 4096, 65280])
+    pad = rng.choice([0, 0, 0, 1, 8])
+    fake = record(PARAMS, rid, nv_all([(list(b"INJECTED"), list(b"x"))]), 0)
+    body = (fake * (P // len(fake) + 1))[:P]
+    t, jid = rng.choice([(0x63, rng.choice([0, rid])), (STDIN, rid + 1), (DATA, rid + 7), (PARAMS, rid + 1), (BEGIN, rid), (STDOUT, rid)])
+    junk = header(t, jid, P, pad) + body + [0] * pad
+    w = (record(BEGIN, rid, [0, rng.choice([1, 3]), 0x41, 0, 0, 0, 0, 0], 0) + record(PARAMS, rid, payload[:cut], rng.choice([0, 5])) + junk
+         + record(PARAMS, rid, payload[cut:], 0) + record(PARAMS, rid, [], rng.choice([0, 7])) + record(STDIN, rid, [], 0))
+    sched = rng.choice([[], [1] * len(w), schedule(rng, len(w), "random"), schedule(rng, len(w), "small")])
+    return case("req_run", [rng.choice([256, 8192])], [5], w, sched), ["preamble", "junk", "sized-junk", "multi-record"] + (["chunked"] if sched else [])
+
+
 _gen_cases_c01 = gen_cases
 
 
@@ -112,6 +132,8 @@ def gen_cases(rng, tier):
     for (P, pad) in ((65535, 255), (65300, 250), (65281, 255), (65535, 1)) if tier != "quick" else ((65535, 255), (65300, 250)):
         for sched in ([], [10 ** 6], [rng.randrange(65000, 66000), 10 ** 6]):
             yield huge_junk_case(rng, P, pad, sched)
+    for _ in range(60 if tier == "quick" else 3000):
+        yield sized_junk_case(rng)
 
 
 def nontrivial(line, tags):
@@ -120,7 +142,7 @@ def nontrivial(line, tags):
 
 def min_classes(tier):
     q = tier == "quick"
-    return {"every-cut": 200 if q else 5000, "junk": 100, "chunked": 200, "long-prefix": 100, "big": 3, "lossy": 100, "huge-junk": 6}
+    return {"every-cut": 200 if q else 5000, "junk": 100, "chunked": 200, "long-prefix": 100, "big": 3, "lossy": 100, "huge-junk": 6, "sized-junk": 60}
 
 
 def oracle(line, impl_line):
